@@ -58,6 +58,14 @@ class Report:
             self.violation(rule, key, site, detail_bad, props, witness)
         return cond
 
+    def undecided(self, rule, key, site, detail, props):
+        """The construct exists but is written in a form outside the idioms
+        this rule reads: no verdict (reported as a NOTE and in the evidence,
+        never as a violation; a *missing* construct is a violation or an
+        anchor error instead)."""
+        self.obs.append(Ob(rule, key, site, "undecided", detail, props,
+                           True))
+
     def note(self, rule, text, props):
         self.notes.append((rule, text, tuple(props)))
 
@@ -124,6 +132,7 @@ def write_evidence(pid, tier, seed, explanation, obs, report, extra, wall,
         "explanation": explanation,
         "obligations": len(obs),
         "discharged": sum(1 for o in obs if o.verdict == "ok"),
+        "undecided": [o.as_dict() for o in obs if o.verdict == "undecided"],
         "evaluations": len(obs),
         "distinct_nontrivial": len(nontriv),
         "rule": ("one evaluation = one rule instance (construct x rule) "
